@@ -3,6 +3,8 @@
 #include <string_view>
 #include <unordered_map>
 #include <functional>
+#include <atomic>
+#include <mutex>
 
 
 
@@ -34,6 +36,11 @@ namespace sqf
             {
                 static std::unordered_map<std::string, type> map = std::unordered_map<std::string, type>();
                 return map;
+            }
+            static std::mutex& registration_mutex()
+            {
+                static std::mutex mutex;
+                return mutex;
             }
             static std::unordered_map<unsigned short, std::string>& namemap_nc()
             {
@@ -83,21 +90,26 @@ namespace sqf
         class type::extend : public type
         {
         private:
-            static inline unsigned short s_local_type_value = 0;
+            // Type ids are handed out lazily on first use, possibly by VM instances on different threads
+            static inline std::atomic<unsigned short> s_local_type_value = 0;
         public:
             extend() : type()
             {
-                if (s_local_type_value == 0)
+                auto value = s_local_type_value.load(std::memory_order_acquire);
+                if (value == 0)
                 {
-                    s_local_type_value = ++s_type_value;
-                    m_value = s_local_type_value;
-                    typemap_nc()[T::name()] = *this;
-                    namemap_nc()[*this] = T::name();
+                    std::lock_guard<std::mutex> lock(registration_mutex());
+                    value = s_local_type_value.load(std::memory_order_relaxed);
+                    if (value == 0)
+                    {
+                        value = ++s_type_value;
+                        m_value = value;
+                        typemap_nc()[T::name()] = *this;
+                        namemap_nc()[*this] = T::name();
+                        s_local_type_value.store(value, std::memory_order_release);
+                    }
                 }
-                else
-                {
-                    m_value = s_local_type_value;
-                }
+                m_value = value;
             }
         };
     }
